@@ -45,8 +45,11 @@ def evaluate(ctx, P, env, cases, with_model=True):
                 why = c.judge(co)
             except Exception as e:          # a judge must never hide a failure
                 why = "judge raised %r on %s" % (e, core.short(co))
-        if why is None and i in s_outs and s_outs[i] != co:
-            why = "implementation result differs from specification result"
+        if why is None and i in s_outs:
+            if c.spec_judge is not None:
+                why = c.spec_judge(co, s_outs[i])
+            elif s_outs[i] != co:
+                why = "implementation result differs from specification result"
         if why is None and hasattr(P, "judge_all"):
             why = P.judge_all(c, co)
         rec = {"op": c.op, "c_out": co, "note": c.note, "tags": sorted(c.tags)}
